@@ -16,6 +16,8 @@ Proof.
   - intros H. exists v. split; [assumption|apply String.eqb_refl].
 Qed.
 
+Fixpoint nodupb (l : list string) : bool := match l with [] => true | x :: r => negb (mem x r) && nodupb r end.
+
 (* ---------------------------------------------------------------- templates: which variables does interpolation substitute *)
 (* the longest variable name that is a prefix of [rest] (runner.go sorts the captures by name length; ir_loader.go:templateVars) *)
 Fixpoint longest_prefix (vars : list string) (rest : string) (best : option string) : option string :=
@@ -144,7 +146,68 @@ Proof.
 Qed.
 End Binary.
 
-Record atom := mkAtom { at_vars : list string; at_chk : check }.
+(* ---------------------------------------------------------------- the filter-op table (ir/filter_op.gen.go) *)
+(* One entry per op: its DSL form as the op generator documents it (`m[$Value].Object.IsVariadicParam()`), the type of its
+   $Value and its three flags.  newFilter / newBinaryExprFilter record the variable of an IR node iff the node's op has the
+   HasVar flag; checkBoundVars only sees recorded variables.                                                                *)
+Record opinfo := mkOp {
+  op_name : string; op_num : nat; op_form : string; op_value_type : string;
+  op_has_var : bool; op_is_binary : bool; op_is_lit : bool; op_handled : bool }.
+
+Fixpoint contains (pat s : string) : bool :=
+  String.prefix pat s || match s with EmptyString => false | String _ rest => contains pat rest end.
+
+(* the op's DSL form takes a pattern variable *)
+Definition mentions_var (o : opinfo) : bool := contains "m[$Value]" (op_form o).
+
+Definition find_op (tab : list opinfo) (n : string) : option opinfo := find (fun o => String.eqb (op_name o) n) tab.
+
+(* every op whose DSL form mentions m[var] has flagHasVar: no variable a Where clause refers to escapes checkBoundVars *)
+Definition flags_complete (tab : list opinfo) : bool := forallb (fun o => implb (mentions_var o) (op_has_var o)) tab.
+(* flagHasVar only where $Value is a variable name: newFilter's filter.Value.(string) cannot fail, nothing else is recorded *)
+Definition flags_sound (tab : list opinfo) : bool :=
+  forallb (fun o => implb (op_has_var o) (mentions_var o && String.eqb (op_value_type o) "string")) tab.
+(* binary ops have exactly the two operands newBinaryExprFilter indexes; literal ops carry a string or an int64 (the only types
+   its type switches and assertions expect); no op is two of binary / literal / variable *)
+Definition flags_shape (tab : list opinfo) : bool :=
+  forallb (fun o =>
+    implb (op_is_binary o) (contains "$Args[0]" (op_form o) && contains "$Args[1]" (op_form o) && negb (contains "$Value" (op_form o))) &&
+    implb (op_is_lit o) (String.eqb (op_value_type o) "string" || String.eqb (op_value_type o) "int64") &&
+    negb (op_is_binary o && op_is_lit o) && negb (op_is_binary o && op_has_var o) && negb (op_is_lit o && op_has_var o)) tab.
+
+(* a leaf of a Where expression: the IR nodes whose DSL form takes a variable, as (op, variable), the variables newFilter's
+   case code records by hand (the argument of Type.IdenticalTo), and the name argument that is checked against a table *)
+Record atom := mkAtom { at_uses : list (string * string); at_extra : list string; at_chk : check }.
+
+Definition use_recorded (tab : list opinfo) (u : string * string) : bool :=
+  match find_op tab (fst u) with Some o => op_has_var o | None => false end.
+Definition use_wf (tab : list opinfo) (u : string * string) : bool :=
+  match find_op tab (fst u) with Some o => mentions_var o | None => false end.
+
+(* what the loader records / what the source mentions *)
+Definition recorded (tab : list opinfo) (a : atom) : list string := map snd (filter (use_recorded tab) (at_uses a)) ++ at_extra a.
+Definition mentioned (a : atom) : list string := map snd (at_uses a) ++ at_extra a.
+Definition atom_wf (tab : list opinfo) (a : atom) : bool := forallb (use_wf tab) (at_uses a).
+
+Lemma find_op_in tab n o : find_op tab n = Some o -> In o tab.
+Proof. unfold find_op. intros H. now apply find_some in H. Qed.
+
+Lemma mentioned_recorded tab a :
+  flags_complete tab = true -> atom_wf tab a = true -> forall v, In v (mentioned a) -> In v (recorded tab a).
+Proof.
+  unfold flags_complete, atom_wf, mentioned, recorded. rewrite !forallb_forall. intros Hc Hw v Hv.
+  apply in_app_or in Hv. apply in_or_app. destruct Hv as [Hv|Hv]; [left|now right].
+  apply in_map_iff in Hv. destruct Hv as (u & <- & Hu). apply in_map_iff. exists u. split; [reflexivity|].
+  apply filter_In. split; [assumption|]. specialize (Hw u Hu). unfold use_wf in Hw. unfold use_recorded.
+  destruct (find_op tab (fst u)) as [o|] eqn:E; [|discriminate].
+  specialize (Hc o (find_op_in _ _ _ E)). rewrite Hw in Hc. exact Hc.
+Qed.
+
+Lemma recorded_mentioned tab a v : In v (recorded tab a) -> In v (mentioned a).
+Proof.
+  unfold mentioned, recorded. intros Hv. apply in_app_or in Hv. apply in_or_app. destruct Hv as [Hv|Hv]; [left|now right].
+  apply in_map_iff in Hv. destruct Hv as (u & <- & Hu). apply filter_In in Hu. apply in_map. tauto.
+Qed.
 
 Record vrule := mkVRule {
   v_comment : bool;               (* MatchComment: the alternatives are regexps, no placement *)
@@ -159,6 +222,7 @@ Variable nb : N.
 Variable place_cases : list (N * place).
 Variable kind_names object_names tag_names : list string.
 Variable swap_guard : bool -> bool -> bool.     (* regenerated from newBinaryExprFilter *)
+Variable optab : list opinfo.                   (* regenerated from ir/filter_op.gen.go *)
 
 Definition check_ok (c : check) : bool :=
   match c with
@@ -172,7 +236,9 @@ Definition check_ok (c : check) : bool :=
 
 Definition bound (a : alt) (v : string) : bool := String.eqb v "$$" || mem v (a_vars a).
 
-Definition where_vars (r : vrule) : list string := flat_map at_vars (v_atoms r).
+Definition where_vars (r : vrule) : list string := flat_map (recorded optab) (v_atoms r).       (* filterInfo.Vars *)
+Definition where_mentions (r : vrule) : list string := flat_map mentioned (v_atoms r).         (* the source *)
+Definition rule_wf (r : vrule) : bool := forallb (atom_wf optab) (v_atoms r).
 Definition all_vars (r : vrule) : list string := flat_map a_vars (v_alts r).
 Definition referenced (r : vrule) : list string := flat_map (fun t => template_vars t (all_vars r)) (v_templates r).
 
@@ -180,27 +246,32 @@ Definition placed (r : vrule) (a : alt) : bool :=
   if v_comment r then true
   else match place_of place_cases (a_tag a) with PErr => false | PTags l => place_ok nb (PTags l) end.
 
-Definition validate (r : vrule) : bool :=
+Definition validate_with (wvars : list string) (r : vrule) : bool :=
   forallb (fun x => check_ok (at_chk x)) (v_atoms r) &&
   forallb a_ok (v_alts r) &&
   forallb (placed r) (v_alts r) &&
-  forallb (fun a => forallb (bound a) (where_vars r) &&
+  forallb (fun a => forallb (bound a) wvars &&
                     match v_at r with Some v => bound a v | None => true end &&
                     forallb (fun v => mem v (a_vars a)) (referenced r)) (v_alts r).
+
+(* the loader: checks the variables it recorded *)
+Definition validate (r : vrule) : bool := validate_with (where_vars r) r.
+(* the specification: checks the variables the Where clause mentions *)
+Definition validate_spec (r : vrule) : bool := validate_with (where_mentions r) r.
 
 (* the property's "well bound": under every alternative, every variable the rule's clauses refer to is bound *)
 Definition well_bound (r : vrule) : Prop :=
   forall a, In a (v_alts r) ->
-    (forall v, In v (where_vars r) -> v = "$$" \/ In v (a_vars a)) /\
+    (forall v, In v (where_mentions r) -> v = "$$" \/ In v (a_vars a)) /\
     (forall v, v_at r = Some v -> v = "$$" \/ In v (a_vars a)) /\
     (forall v, In v (referenced r) -> In v (a_vars a)).
 
 Lemma bound_spec a v : bound a v = true <-> v = "$$" \/ In v (a_vars a).
 Proof. unfold bound. rewrite orb_true_iff, String.eqb_eq, mem_In. tauto. Qed.
 
-Theorem accepted_rule_bound r : validate r = true -> well_bound r.
+Theorem spec_accepted_rule_bound r : validate_spec r = true -> well_bound r.
 Proof.
-  unfold validate. intros H. apply andb_true_iff in H. destruct H as [_ H]. rewrite forallb_forall in H.
+  unfold validate_spec, validate_with. intros H. apply andb_true_iff in H. destruct H as [_ H]. rewrite forallb_forall in H.
   intros a Ha. specialize (H a Ha). apply andb_true_iff in H. destruct H as [H H3]. apply andb_true_iff in H. destruct H as [H1 H2].
   rewrite forallb_forall in H1, H3. repeat split.
   - intros v Hv. apply bound_spec. now apply H1.
@@ -208,12 +279,58 @@ Proof.
   - intros v Hv. apply mem_In. now apply H3.
 Qed.
 
+Lemma forallb_incl {A} (f : A -> bool) l1 l2 : (forall x, In x l1 -> In x l2) -> forallb f l2 = true -> forallb f l1 = true.
+Proof. rewrite !forallb_forall. auto. Qed.
+
+Lemma forallb_ext_in' {A} (f g : A -> bool) l : (forall x, In x l -> f x = g x) -> forallb f l = forallb g l.
+Proof.
+  induction l as [|x l IH]; intros H; [reflexivity|]. cbn [forallb]. rewrite (H x (or_introl eq_refl)), IH; [reflexivity|].
+  intros y Hy. apply H. now right.
+Qed.
+
+Lemma where_mentions_recorded r :
+  flags_complete optab = true -> rule_wf r = true -> forall v, In v (where_mentions r) -> In v (where_vars r).
+Proof.
+  unfold rule_wf, where_mentions, where_vars. rewrite forallb_forall. intros Hc Hw v Hv.
+  apply in_flat_map in Hv. destruct Hv as (a & Ha & Hv). apply in_flat_map. exists a. split; [assumption|].
+  apply mentioned_recorded; auto.
+Qed.
+
+Lemma where_recorded_mentions r v : In v (where_vars r) -> In v (where_mentions r).
+Proof.
+  unfold where_mentions, where_vars. intros Hv. apply in_flat_map in Hv. destruct Hv as (a & Ha & Hv).
+  apply in_flat_map. exists a. split; [assumption|]. now apply recorded_mentioned in Hv.
+Qed.
+
+(* with a complete flag table the loader's check IS the specification *)
+Theorem validate_is_spec r : flags_complete optab = true -> rule_wf r = true -> validate r = validate_spec r.
+Proof.
+  intros Hc Hw. unfold validate, validate_spec, validate_with. f_equal. apply forallb_ext_in'. intros a _. f_equal. f_equal.
+  destruct (forallb (bound a) (where_mentions r)) eqn:E.
+  - eapply forallb_incl; [|exact E]. apply where_recorded_mentions.
+  - destruct (forallb (bound a) (where_vars r)) eqn:E2; [|reflexivity].
+    rewrite <- E. symmetry. eapply forallb_incl; [|exact E2]. now apply where_mentions_recorded.
+Qed.
+
+Theorem accepted_rule_bound r : flags_complete optab = true -> rule_wf r = true -> validate r = true -> well_bound r.
+Proof. intros Hc Hw H. apply spec_accepted_rule_bound. now rewrite <- validate_is_spec. Qed.
+
+(* an incomplete table lets an unbound variable through: the loader accepts what the specification rejects *)
+Lemma validate_spec_implies r : validate_spec r = true -> validate r = true.
+Proof.
+  unfold validate, validate_spec, validate_with. intros H.
+  apply andb_true_iff in H. destruct H as [H0 H]. rewrite H0. cbn [andb].
+  rewrite forallb_forall in H. apply forallb_forall. intros a Ha. specialize (H a Ha).
+  apply andb_true_iff in H. destruct H as [H H3]. apply andb_true_iff in H. destruct H as [H1 H2]. rewrite H2, H3, !andb_true_r.
+  eapply forallb_incl; [|exact H1]. apply where_recorded_mentions.
+Qed.
+
 (* an accepted syntax rule is filed in at least one bucket and only in buckets of the array: Load does not index out of range *)
 Theorem accepted_rule_placed r a :
   validate r = true -> v_comment r = false -> In a (v_alts r) ->
   exists l, place_of place_cases (a_tag a) = PTags l /\ l <> [] /\ forall t, In t l -> (t < nb)%N.
 Proof.
-  unfold validate. intros H Hc Ha. apply andb_true_iff in H. destruct H as [H _]. apply andb_true_iff in H. destruct H as [_ H].
+  unfold validate, validate_with. intros H Hc Ha. apply andb_true_iff in H. destruct H as [H _]. apply andb_true_iff in H. destruct H as [_ H].
   rewrite forallb_forall in H. specialize (H a Ha). unfold placed in H. rewrite Hc in H.
   destruct (place_of place_cases (a_tag a)) as [|l]; [discriminate|]. exists l. split; [reflexivity|].
   cbn in H. apply andb_true_iff in H. destruct H as [H1 H2]. split; [destruct l; [discriminate|congruence]|].
